@@ -12,6 +12,7 @@ import (
 	"io"
 	"net"
 	"sync"
+	"sync/atomic"
 	"time"
 
 	"github.com/arloliu/go-secs/v2/hsms"
@@ -179,17 +180,22 @@ type Rig struct {
 	Cfg  Cfg
 	Conn hsmsss.Connection
 
-	dialCh chan net.Conn       // active: peer ends of dialled pipes
-	dialGo chan struct{}       // active: tokens allowing a dial to proceed
-	lisCh  chan *pipeListener  // passive: listeners created by the factory
+	dialCh chan net.Conn      // active: peer ends of dialled pipes
+	dialGo chan struct{}      // active: tokens allowing a dial to proceed
+	lisCh  chan *pipeListener // passive: listeners created by the factory
 	curLis *pipeListener
+	hold   *holdCtl
 	gen    int
 
 	hmu       sync.Mutex
 	delivered []Frame
 }
 
-func newRig(c Cfg) (*Rig, error) {
+func newRig(c Cfg) (*Rig, error) { return newRigHooked(c, nil) }
+
+// newRigHooked additionally places the harness's hooks around the synchronous commits the
+// transport makes through its runtime (verif seam hsms.VerifHookRuntime).
+func newRigHooked(c Cfg, hold *holdCtl) (*Rig, error) {
 	r := &Rig{Cfg: c, dialCh: make(chan net.Conn, 16), dialGo: make(chan struct{}, 16), lisCh: make(chan *pipeListener, 16)}
 	copts := []hsms.ConnOption{
 		// quiet link: nothing but responses may appear while a sequence runs
@@ -235,6 +241,30 @@ func newRig(c Cfg) (*Rig, error) {
 		return nil, err
 	}
 	r.Conn = conn
+	if hold != nil {
+		r.hold = hold
+		ok := hsms.VerifHookRuntime(hsmsss.VerifCore(conn), hsms.VerifRuntimeHooks{
+			BeforeTCPUp: func(net.Conn) {
+				if hold.armed.Load() {
+					hold.held <- struct{}{}
+					<-hold.release
+				}
+			},
+			AfterTCPUp: func(net.Conn) {
+				if hold.armed.CompareAndSwap(true, false) {
+					hold.after <- conn.State()
+				}
+			},
+			BeforeCommitSelected: func() {
+				if d := time.Duration(hold.commitDelay.Load()); d > 0 {
+					time.Sleep(d)
+				}
+			},
+		})
+		if !ok {
+			return nil, errors.New("rig: runtime hook not installed")
+		}
+	}
 	conn.AddDataMessageHandler(func(m *hsms.DataMessage, _ hsms.SECS2Endpoint) {
 		h := m.HeaderBytes()
 		f := frameFrom(h[:])
@@ -322,4 +352,18 @@ func (r *Rig) waitState(s hsms.ConnState, d time.Duration) bool {
 		time.Sleep(100 * time.Microsecond)
 	}
 	return r.Conn.State() == s
+}
+
+// holdCtl scripts the runtime hooks: while armed, the transport's TCPUp call parks (held is
+// signalled) until release is closed; the state right after TCPUp returned is reported on after.
+type holdCtl struct {
+	armed       atomic.Bool
+	held        chan struct{}
+	release     chan struct{}
+	after       chan hsms.ConnState
+	commitDelay atomic.Int64 // nanoseconds slept before every CommitSelected
+}
+
+func newHold() *holdCtl {
+	return &holdCtl{held: make(chan struct{}, 4), release: make(chan struct{}), after: make(chan hsms.ConnState, 4)}
 }
